@@ -12,6 +12,19 @@ import AgVerif.Proof.CfgSpec
 namespace AgVerif.C40
 open AgVerif.Cfg AgVerif.Spec.Cfg AgVerif.Gen.CfgOps
 
+/-- `get_instructions_idx` was read from the source as a pure generator over the current instruction
+    list (`Gen.CfgOps.idxPairsPure`: no store, no memo; the translator raises on any other shape), and
+    the pairs such a generator yields — the model's `withOff 0 m` — are exactly the (offset, instruction)
+    pairs the disassembly of the CURRENT list `m` reports: each offset is the running sum of the lengths
+    of the instructions before it. -/
+theorem idx_pairs_pure : idxPairsPure = true ∧
+    ∀ (m : List Ins) (o : Nat) (i : Ins), (o, i) ∈ withOff 0 m ↔ InsnAtM m o i :=
+  ⟨rfl, fun _ _ _ => mem_withOff_insnAt⟩
+
+/-- the offsets of the pairs are strictly the prefix sums: first pair at 0, each next one `len` later -/
+theorem idx_pairs_running_sum (s : Nat) (i : Ins) (r : List Ins) :
+    withOff s (i :: r) = (s, i) :: withOff (s + i.len) r := rfl
+
 /-- A block starts at an instruction offset and ends at one, or at the end of the method. -/
 theorem block_bounds_are_insn_offsets {m : List Ins} {ex : List Exc} {b : Block} (hb : b ∈ blocks m ex) :
     InsnOffsetM m b.start ∧ (InsnOffsetM m b.stop ∨ b.stop = lenSum m) := by
